@@ -102,6 +102,17 @@ for hn in ("md5", "sha1"):
     if bad:
         print(json.dumps(dict(ok=False, hash_name=hn, pair=bad, n=len(universe))))
         sys.exit(0)
+# large leaves: the boundaries between neighbouring values must survive whatever their size (64 KiB, 1 MiB: typical thresholds of
+# "fast paths" for big buffers) - [a, b] vs [a + b[:1], b[1:]], and a value vs the same bytes split in two
+for size in (70000, 1100000):
+    for mk in (lambda c: c.encode() * size, lambda c: bytearray(c.encode() * size), lambda c: c * size):
+        a, b = mk("x"), mk("y")
+        pairs = [([a, b], [a + b[:1], b[1:]]), ((a, b), (a[:-1], a[-1:] + b)), ([a + b], [a, b]), ({"k": a, "l": b}, {"k": a + b[:1], "l": b[1:]})]
+        for u, v in pairs:
+            for hn in ("md5", "sha1"):
+                if joblib.hash(u, hash_name=hn) == joblib.hash(v, hash_name=hn):
+                    print(json.dumps(dict(ok=False, hash_name=hn, pair=["%s of two %s of %d items" % (type(u).__name__, type(a).__name__, size), "the same contents with the boundary moved by one item"], n=len(universe))))
+                    sys.exit(0)
 print(json.dumps(dict(ok=True, n=len(universe), pairs=len(universe) * (len(universe) - 1) // 2)))
 '''
 
